@@ -139,8 +139,22 @@ fn pp_ty(ty: &Type) -> RcDoc<'_> {
     }
 }
 
+// The JavaScript library reads a key of the form `_<digits>_` as that numeric
+// field id, not as a name to be hashed.
+fn looks_like_numeric_id(name: &str) -> bool {
+    name.len() >= 3
+        && name.starts_with('_')
+        && name.ends_with('_')
+        && name[1..name.len() - 1].bytes().all(|b| b.is_ascii_digit())
+}
+
 fn pp_label(id: &SharedLabel) -> RcDoc<'_> {
     match &**id {
+        // a field that is really named `_42_` is written by its own id instead
+        Label::Named(name) if looks_like_numeric_id(name) => str("_")
+            .append(RcDoc::as_string(id.get_id()))
+            .append("_")
+            .append(RcDoc::space()),
         Label::Named(str) => quote_ident(str),
         Label::Id(n) | Label::Unnamed(n) => str("_")
             .append(RcDoc::as_string(n))
